@@ -236,6 +236,16 @@ class PositionCycles:
                            {'sum_trade_pnl': tot, 'wallet_change': dw, 'trades': len(store.completed_trades.trades)})
 
     def finished(self, c, res):
+        # a session winds itself up: a position still open after the last candle is force-closed by the framework
+        # (quantifier: "open position at session end"), so every cycle has closed and produced its trade by now
+        from jesse.store import store
+        for s in self.symbols:
+            p = store.positions.storage.get(f'{self.ex}-{s}')
+            if p is not None and p.is_open and self.q[s] != 0:
+                self.v(c, 'cycle-left-open', f"C06|position-cycle-still-open-after-the-session-was-wound-up|type={self.kind}",
+                       {'symbol': s, 'qty': float(p.qty), 'trades': len(store.completed_trades.trades)})
+                break
+        c.count('c06_wound_up_checks')
         if self.kind != 'futures':
             return
         m = (res or {}).get('metrics') or {}
